@@ -167,12 +167,27 @@ Print Assumptions C14_out_of_scope_refuted.
 
 (* ====== ties to the source: BEGIN (written by bin/mkties) ====== *)
 (* The Go functions named here are translated into Gallina from /repo's source on every run
-   (tools/gen/code.go -> Gen/Code/<Eco>.v); Tie/<Eco>.v, Tie/<Eco>Range.v prove each translation equal to the
-   model the theorems above speak about.  If the code changes so that a tie no longer holds,
-   this file no longer checks. *)
-From Verif.Tie Require Alpine.
+   (tools/gen -> Gen/Code/<Eco>.v for loop-free functions, Gen/Loops/<Eco>.v for functions with
+   loops and index expressions, where a panic is Panic and a loop takes fuel); Tie/<Eco>.v,
+   Tie/<Eco>Range.v and Tie/Loops/<Eco>.v prove each translation equal to the model the theorems
+   above speak about (and, for the loop functions: no panic, termination within a linear bound).
+   If the code changes so that a tie no longer holds, this file no longer checks. *)
+Require Verif.Tie.Alpine.
+Require Verif.Tie.Loops.Alpine.
 Definition C14_tie_alpine_compareInt := Verif.Tie.Alpine.tie_alpine_compareInt.
 Print Assumptions C14_tie_alpine_compareInt.
 Definition C14_tie_alpine_compareLetters := Verif.Tie.Alpine.tie_alpine_compareLetters.
 Print Assumptions C14_tie_alpine_compareLetters.
+Definition C14_tie_loops_alpine_hasLeadingZero := Verif.Tie.Loops.Alpine.tie_loops_alpine_hasLeadingZero.
+Print Assumptions C14_tie_loops_alpine_hasLeadingZero.
+Definition C14_tie_hasLeadingZero_total_model := Verif.Tie.Loops.Alpine.hasLeadingZero_total_model.
+Print Assumptions C14_tie_hasLeadingZero_total_model.
+Definition C14_tie_loops_alpine_compareNumericArraysNumeric := Verif.Tie.Loops.Alpine.tie_loops_alpine_compareNumericArraysNumeric.
+Print Assumptions C14_tie_loops_alpine_compareNumericArraysNumeric.
+Definition C14_tie_compareNumericArraysNumeric_total_model := Verif.Tie.Loops.Alpine.compareNumericArraysNumeric_total_model.
+Print Assumptions C14_tie_compareNumericArraysNumeric_total_model.
+Definition C14_tie_loops_alpine_compareSuffixArrays := Verif.Tie.Loops.Alpine.tie_loops_alpine_compareSuffixArrays.
+Print Assumptions C14_tie_loops_alpine_compareSuffixArrays.
+Definition C14_tie_compareSuffixArrays_total_model := Verif.Tie.Loops.Alpine.compareSuffixArrays_total_model.
+Print Assumptions C14_tie_compareSuffixArrays_total_model.
 (* ====== ties to the source: END ====== *)
